@@ -373,6 +373,14 @@ sqfs_inode_generic_t
 	index_ent_t *idx;
 	sqfs_u8 *ptr;
 
+	/* none of the two inode layouts can hold these, do not wrap */
+	if ((writer->dir_ref >> 16) > 0xFFFFFFFFUL ||
+	    writer->dir_size > (0xFFFFFFFFUL - 3) ||
+	    writer->ent_count > (0xFFFFFFFFUL - 2) ||
+	    hlinks > (0xFFFFFFFFUL - 2 - writer->ent_count)) {
+		return NULL;
+	}
+
 	index_size = 0;
 
 	for (idx = writer->idx; idx != NULL; idx = idx->next)
